@@ -61,7 +61,14 @@ def run_cases(prop, P, cases, tag):
     byname = {c["name"]: c for c in cases}
     stats = {"harness_lines": 0}
     for mode, prefix, checks in P["runs"]:
-        outs, xs = core.run_harness(mode, cases, f"{prop}{tag}")
+        big = [c for c in cases if c.get("nomodel")]
+        if big:
+            # inputs too large for the extracted model's quadratic position lookups: implementation only
+            _, xs_big = core.run_harness(mode, big, f"{prop}{tag}big")
+            for name, chk, verdict, detail in xs_big:
+                if verdict != "ok" and (chk.split(":")[0] in P.get("x_checks", []) or chk in ("panic", "abort")):
+                    findings.append({"case": name.split(":")[0], "kind": "impl", "check": chk, "detail": detail})
+        outs, xs = core.run_harness(mode, [c for c in cases if not c.get("nomodel")], f"{prop}{tag}")
         for name, chk, verdict, detail in xs:
             base = name.split(":")[0]
             if verdict != "ok" and (chk.split(":")[0] in P.get("x_checks", []) or chk in ("panic", "abort")):
@@ -80,6 +87,24 @@ def run_cases(prop, P, cases, tag):
                         kind = "decode" if v in (2, 3, 9) else "known" if v == 4 else ("spec" if chk.startswith("spec_") else "corr")
                         findings.append({"case": name.split(":")[0], "kind": kind, "check": chk, "detail": f"verdict {v} on {name}"})
         stats.setdefault("outs", []).extend(outs)
+        if P.get("py_oracle") and prefix == "P":
+            import sx
+            n_or = 0
+            for o in outs:
+                with open(o, errors="replace") as fh:
+                    for line in fh:
+                        if line.startswith("P "):
+                            name, pl = sx.pline(line)
+                            case = byname.get(name.split(":")[0])
+                            n_or += 1
+                            try:
+                                err = P["py_oracle"](case, pl)
+                            except Exception as ex:  # an oracle crash is a machinery problem, reported as such
+                                err = None
+                                findings.append({"case": name.split(":")[0], "kind": "harness", "check": "oracle-exception", "detail": repr(ex)[:300]})
+                            if err:
+                                findings.append({"case": name.split(":")[0], "kind": "spec", "check": "oracle", "detail": err[:500]})
+            stats["oracle_evaluations"] = stats.get("oracle_evaluations", 0) + n_or
         if P.get("post"):
             f2, st2 = P["post"](cases, xs)
             findings += f2
@@ -95,8 +120,47 @@ def still_fails(prop, P, case, check, kind):
 TOKEN_RE = re.compile(r"(\s+|/\*.*?\*/|//[^\n]*\n?|[;{}(),<>=\[\]])", re.S)
 
 
+def shrink_doc(prop, P, case, check, kind, budget_s=40):
+    """cases that carry their abstract document: drop members / arguments / annotations / docs and re-render"""
+    import copy
+    t0 = time.time()
+    best = case
+
+    def variants(d):
+        for i in range(len(d["members"])):
+            v = copy.deepcopy(d); del v["members"][i]; yield v
+        for i, m in enumerate(d["members"]):
+            for j in range(len(m.get("args", []))):
+                v = copy.deepcopy(d); del v["members"][i]["args"][j]; yield v
+            if m.get("annotations"):
+                v = copy.deepcopy(d); v["members"][i]["annotations"] = []; yield v
+            if m.get("doc"):
+                v = copy.deepcopy(d); v["members"][i]["doc"] = None; yield v
+        for k in ("imports", "declared"):
+            for i in range(len(d[k])):
+                v = copy.deepcopy(d); del v[k][i]; yield v
+        if d.get("annotations"):
+            v = copy.deepcopy(d); v["annotations"] = []; yield v
+        if d.get("doc"):
+            v = copy.deepcopy(d); v["doc"] = None; yield v
+    changed = True
+    while changed and time.time() - t0 < budget_s:
+        changed = False
+        for v in variants(best["doc"]):
+            cand = P["rerender"](best, v)
+            if still_fails(prop, P, cand, check, kind):
+                best = cand
+                changed = True
+                break
+    return best
+
+
 def shrink(prop, P, case, check, kind, budget_s=40):
     """delta debugging over files, then over text chunks of each file"""
+    if case.get("doc") is not None and P.get("rerender"):
+        return shrink_doc(prop, P, case, check, kind, budget_s)
+    if case.get("wf") is not None or case.get("expect_doc") or case.get("extent"):
+        return case        # the oracle's ground truth is tied to this exact text
     t0 = time.time()
     best = dict(case)
     if "files" in best and best["files"]:
@@ -148,6 +212,9 @@ def shrink(prop, P, case, check, kind, budget_s=40):
 
 def case_json(c):
     out = {"name": c["name"]}
+    for k in ("style", "wf", "note"):
+        if c.get(k) is not None:
+            out[k] = c[k]
     if c.get("files"):
         out["files"] = [[fid, text] for fid, text in c["files"]]
     if c.get("ops"):
@@ -328,6 +395,9 @@ def finish(prop, tier, seed, P, t0, nviol, obl, cases, findings, broken, assumpt
         "distribution": P.get("distribution", lambda cs: {})(cases),
         "run_stats": {k: v for k, v in stats.items() if k != "outs"},
     }
+    if P["level"] == "other":
+        coverage["explanation"] = ("No theorem decides this property yet. Decided by oracles on the implementation's output over generated inputs "
+                                   "(" + P["rule"][:300] + ") and by the exact correspondence of the implementation with the Coq parser model.")
     core.write_evidence(prop, tier, seed, P["level"], coverage, time.time() - t0, nviol, P["assumptions"])
 
 
